@@ -41,7 +41,7 @@ inductive Atom : PExp → Tok → Prop
   | num (s : String) : Atom (.num s) (.float s)
   | tt : Atom (.bool true) (.word "true")
   | ff : Atom (.bool false) (.word "false")
-  | var (n : String) : isKeyword n = false → boolPrefix n = none → Atom (.var n) (.word n)
+  | var (n : String) : isKeyword n = false → Atom (.var n) (.word n)
 
 /-- product of implicitly multiplied pieces: the left fold of `Rule::implicit_mul` -/
 def mulAll (a : PExp) (rest : List PExp) : PExp := rest.foldl (fun acc e => .bin .mul acc e) a
@@ -163,7 +163,7 @@ theorem optUnary_atom {a : PExp} {tk : Tok} (h : Atom a tk) (rest : List Tok) :
   | num s => simp [optUnary, unRule, ruleOfTok, Tok.opSpelling]
   | tt => simp [optUnary, unRule_word (w := "true") (by decide)]
   | ff => simp [optUnary, unRule_word (w := "false") (by decide)]
-  | var n hk _ =>
+  | var n hk =>
     have : n ≠ "not" := by intro e; subst e; exact absurd hk (by decide)
     simp [optUnary, unRule_word this]
 
@@ -194,8 +194,12 @@ theorem leaf_word (f : Nat) (w : String) (r : List Tok) (h : ∀ tl, r ≠ .lpar
   | cons tk tl =>
     cases tk <;> first | exact absurd rfl (h tl) | simp [leaf]
 
-theorem boolPrefix_true : boolPrefix "true" = some ("true", "") := by decide
-theorem boolPrefix_false : boolPrefix "false" = some ("false", "") := by decide
+theorem not_boolean_of_not_keyword {n : String} (h : isKeyword n = false) : Gen.booleanWords.contains n = false := by
+  by_cases h1 : n = "true"
+  · subst h1; exact absurd h (by decide)
+  · by_cases h2 : n = "false"
+    · subst h2; exact absurd h (by decide)
+    · simp [Gen.booleanWords, h1, h2]
 
 theorem leaf_atom {a : PExp} {tk : Tok} (h : Atom a tk) {rest : List Tok} (hf : Follow rest) (f : Nat) :
     leaf (f+4) (tk :: rest) = .ok (a, rest) := by
@@ -210,9 +214,13 @@ theorem leaf_atom {a : PExp} {tk : Tok} (h : Atom a tk) {rest : List Tok} (hf : 
     apply imul_single _ _ _ _ _ (optVariable_follow hf)
     rw [atoms_float]
     exact atoms_follow hf f _
-  | tt => rw [leaf_word _ _ _ (follow_not_lpar hf)]; simp [wordLeaf, boolPrefix_true]
-  | ff => rw [leaf_word _ _ _ (follow_not_lpar hf)]; simp [wordLeaf, boolPrefix_false]
-  | var n hk hb => rw [leaf_word _ _ _ (follow_not_lpar hf)]; simp [wordLeaf, hk, hb]
+  | tt => rw [leaf_word _ _ _ (follow_not_lpar hf)]; simp [wordLeaf, Gen.booleanWords]
+  | ff => rw [leaf_word _ _ _ (follow_not_lpar hf)]; simp [wordLeaf, Gen.booleanWords]
+  | var n hk =>
+    rw [leaf_word _ _ _ (follow_not_lpar hf)]
+    have hb := not_boolean_of_not_keyword hk
+    simp only [wordLeaf, hb, hk]
+    rfl
 
 /-! ### the `exp` rule: `[prefix] leaf (operator [prefix] leaf)*` -/
 
